@@ -210,18 +210,12 @@ def _resolve_anchor(textA, body0, pat, nth, what, f, unit_name, kind, idx):
     cur_lines = [l.strip() for l in textA.split("\n")]
     rec = ANCHOR_OUT.setdefault(unit_name, {}).setdefault(f.qname(), {"lines": cur_lines, "hints": {}, "claims": {}})
     rec["lines"] = cur_lines
-    if len(ms) >= nth:
-        m = ms[nth - 1]
-        s0, e0 = body0 + m.start(), body0 + m.end()
-        l0 = textA.count("\n", 0, s0)
-        l1 = textA.count("\n", 0, max(s0, e0 - 1))
-        rec[kind][str(idx)] = [l0, l1]
-        return s0, e0, False
+    # where the committed baseline says this anchor sits, mapped onto the current text through a line diff of the function
     base = ANCHOR_BASE.get(unit_name, {}).get(f.qname())
-    if base and base.get("lines") and str(idx) in base.get(kind, {}):
+    lo = hi = None
+    if base and base.get("lines") and str(idx) in base.get(kind, {}) and base["lines"] != cur_lines:
         b0, b1 = base[kind][str(idx)]
         sm = difflib.SequenceMatcher(None, base["lines"], cur_lines, autojunk=False)
-        lo = hi = None
         for tag, i1, i2, j1, j2 in sm.get_opcodes():
             if tag == "equal":
                 if i1 <= b0 < i2: lo = j1 + (b0 - i1)
@@ -230,6 +224,29 @@ def _resolve_anchor(textA, body0, pat, nth, what, f, unit_name, kind, idx):
                 # the anchored line was edited in place: the hint keeps its place relative to the replaced block
                 if i1 <= b0 < i2 and lo is None: lo = j1
                 if i1 <= b1 < i2 and hi is None: hi = j2 - 1
+    if len(ms) >= nth:
+        m = ms[nth - 1]
+        n_base = None
+        if lo is not None:
+            bt = "\n".join(base["lines"])
+            n_base = len(re.findall(pat, bt)) or len(re.findall(_relax(pat), bt))
+        if lo is not None and n_base != len(ms):
+            # (only when the NUMBER of occurrences changed: with the same number, "the nth occurrence" is still the nth one, also when
+            # statements were moved around)
+            # "the nth occurrence" shifts when an EARLIER occurrence of the same statement was edited away: among the regex matches prefer
+            # the one on the line the baseline position maps to; if none is there, the anchored statement itself changed: positional placement
+            same = [x for x in ms if textA.count("\n", 0, body0 + x.start()) == lo]
+            if same:
+                m = same[0]
+            elif textA.count("\n", 0, body0 + m.start()) != lo:
+                m = None
+        if m is not None:
+            s0, e0 = body0 + m.start(), body0 + m.end()
+            l0 = textA.count("\n", 0, s0)
+            l1 = textA.count("\n", 0, max(s0, e0 - 1))
+            rec[kind][str(idx)] = [l0, l1]
+            return s0, e0, False
+    if base and base.get("lines") and str(idx) in base.get(kind, {}):
         if lo is not None and hi is not None and lo <= hi:
             lines_off = [0]
             for mm in re.finditer("\n", textA):
@@ -409,6 +426,8 @@ def process_fn(asm, f, unit):
     body0 = ct[fp.i_brace].start
     body_lines_off = []
     for k, h in enumerate(f.hints):
+        if h is None:
+            continue
         pat, nth, text = h[0], h[1], h[2]
         where_ = h[3] if len(h) > 3 else "after"
         try:
@@ -439,10 +458,23 @@ def process_fn(asm, f, unit):
     for k, c in enumerate(f.claims):
         pat, nth, text = c[0], c[1], c[2]
         where_ = c[3] if len(c) > 3 else "after"
+        tag = "claim:%d" % k
+        if nth == 0:
+            # "at EVERY occurrence" (e.g. every `return Ok(false)`): the claim is a condition of each such exit, including ones added later
+            seg_ = textA[body0:]
+            ms_ = list(re.finditer(pat, seg_)) or list(re.finditer(_relax(pat), seg_))
+            if not ms_:
+                raise LostAnchor("%s::%s: claim anchor /%s/ (every occurrence) not found" % (f.file, f.name, pat))
+            for m_ in ms_:
+                if where_ == "before":
+                    ed.insert(textA.rfind("\n", 0, body0 + m_.start()) + 1, text.strip() + "\n", tag)
+                else:
+                    at_ = textA.find("\n", body0 + m_.end())
+                    ed.insert(len(textA) if at_ < 0 else at_ + 1, text.strip() + "\n", tag)
+            continue
         s0, e0, positional = _resolve_anchor(textA, body0, pat, nth, "claim", f, unit.name, "claims", k)
         if positional and where_ in ("at", "atend"):
             raise LostAnchor("%s::%s: claim anchor /%s/ #%d not found (inline claim: no positional fallback)" % (f.file, f.name, pat, nth))
-        tag = "claim:%d" % k
         if where_ == "before":
             at = textA.rfind("\n", 0, s0) + 1
             ed.insert(at, text.strip() + "\n", tag)
@@ -763,6 +795,8 @@ def _without_hints(x, tags=None):
             hs.append((h[0], h[1], t) + tuple(h[3:]))
         elif len(h) > 3 and h[3] in ("at", "atend"):
             hs.append(h)
+        else:
+            hs.append(None)  # placeholder: the indices of the other hints (baseline anchors, linemap tags) must not shift
     y.hints = hs
     if x.pre and (tags is None or "hint:pre" in tags):
         y.pre = _strip_asserts(x.pre) or None
